@@ -194,6 +194,9 @@ func refCorpus(e *Env, corpusPath, outPath string, reverse bool) ([][2]string, e
 	ctx, cancel := context.WithTimeout(context.Background(), 10*time.Minute)
 	defer cancel()
 	cmd := exec.CommandContext(ctx, e.Refeval, args...)
+	if strings.Contains(corpusPath, "iso") {
+		cmd.Env = append(os.Environ(), "VERIF_REF_LINGER=1")
+	}
 	var errb bytes.Buffer
 	cmd.Stderr = &errb
 	if err := cmd.Run(); err != nil {
